@@ -30,6 +30,16 @@ CLAIMED = {
     "C06": ("lock-region pairing and call-graph who-may-call",
             "reader holds the manifest read lock from list copy to last file open while compaction unlinks under the write lock; an "
             "open reader never returns to path-addressed storage", "5/C06"),
+    "C09": ("ADT-table check of the score algebra, value-flow of tie breakers to their validator, control-dependence of the pruning threshold on the hook parameters",
+            "score expression type has only sub-additive nodes with validated tie breakers; the pruning threshold is finite only when "
+            "neither a collector nor a score-adjust hook is attached; collection is not gated by the heap (bound soundness itself, "
+            "incl. BMW block bounds, is not decided)", "5/C09"),
+    "C12": ("value-flow from request thresholds to cut-off operations in per-segment finishers and merge arms; sibling accessor agreement",
+            "no truncate/filter/retain/take by size/min_doc_count/max_doc_count before all segments are merged (8 sites recorded as known "
+            "findings); numeric collectors read i64 and f64 columns alike", "5/C12"),
+    "C13": ("control-dependence of collector calls on cursor-key comparisons (direct and through accept callbacks), argument provenance of the suggester",
+            "documents reach the aggregation collector before the cursor test; executors never prune or gate collection while a collector "
+            "is attached; suggestions depend on req.suggest only", "5/C13"),
     "C15": ("call-graph containment of error origins (commit-time per-document checks ⊆ add-time checks) with dominance over the WAL append",
             "every function in which the segment build can originate a content error is also run by add_document before the WAL "
             "append, with failure returning an error; nothing fallible runs between append and queue push", "5/C15"),
@@ -42,6 +52,9 @@ CLAIMED = {
             "every content read at open and a mismatch is an error; fast-field codec tables inverse and exhaustive; every file read on "
             "the open path is integrity-checked first (manifest: known finding); pre-verification parsers have no unreasoned panic source",
             "5/C17"),
+    "C21": ("value-flow from regex match offsets through byte arithmetic to str slicing with a char-boundary sanitiser requirement",
+            "every arithmetic slice bound on the highlighted text passes an is_char_boundary loop (or boundary helper) before the "
+            "slice; fragments are pushed only on a match, once per iteration, in a loop bounded by number_of_fragments", "5/C21"),
     "C28": ("taint/sanitiser flow over MIR (deserialised paths must be re-rooted), constructor who-may-call, path-builder provenance",
             "a manifest loaded from disk is re-rooted at the opened directory before it is published; SegmentPaths are built only by "
             "directory::segment_paths as root.join(name-with-id); every root handed to the path builders derives from the opened "
